@@ -16,8 +16,9 @@ sample_case(rng, name, mode=None, feasible=True)               -> spec for a str
 pack_rows(tensor, cols) / unpack_rows(ints, cols)               bit-packed rows (bit j = column j)
 libc_candidates_1d / libc_candidates_2d                         candidate streams of the Cython Gaussian kernels
 
-A *spec* is {"gen": name, "mode": "static"|…, "shape": [...], "acc": number, "cf": number|None,
-"seed": int|list|None, "return_acs": bool, "extra": {...}}.
+A *spec* is {"gen": name, "mode": "static"|…, "shape": [...], "acc": number | [numbers], "cf": number | [numbers] | None,
+"seed": int|list|None, "return_acs": bool, "extra": {...}}.  With lists the generator picks one pair per call
+(`choose_acceleration`, first recorded draw): `chosen(spec, result)` gives the pair that was used.
 """
 from __future__ import annotations
 
@@ -74,9 +75,9 @@ def make(name: str, mode: str, acc, cf, **extra):
     from direct.types import MaskFuncMode
 
     cls = getattr(S, name + "MaskFunc")
-    kw = dict(accelerations=[acc], **extra)
+    kw = dict(accelerations=list(acc) if isinstance(acc, (list, tuple)) else [acc], **extra)
     if cf is not None:
-        kw["center_fractions"] = [cf]
+        kw["center_fractions"] = list(cf) if isinstance(cf, (list, tuple)) else [cf]
     if not is_kt(name):
         kw["mode"] = MaskFuncMode(mode)
     return cls(**kw)
@@ -450,12 +451,27 @@ def sample_params(rng, name: str, rows: int, cols: int, want_feasible=True, trie
     return None
 
 
-def sample_case(rng, name: str, mode=None, feasible_only=True, small=False, rank=None) -> dict | None:
+def chosen(spec: dict, res: dict):
+    """(acc, cf) actually used by a call: the first recorded draw is `choose_acceleration`'s index."""
+    acc, cf = spec["acc"], spec.get("cf")
+    if not isinstance(acc, (list, tuple)):
+        return acc, cf
+    d = res.get("draws") or []
+    k = int(d[0][3]) if d and d[0][0] == "randint" else 0
+    return acc[k], (cf[k] if isinstance(cf, (list, tuple)) else cf)
+
+
+def sample_case(rng, name: str, mode=None, feasible_only=True, small=False, rank=None, multi=0.0) -> dict | None:
     mode = mode or rng.choice(modes_of(name))
     small = small or name in ("VariableDensityPoisson", "KtRadial")
     for _ in range(50):
         shape = sample_shape(rng, name, mode, rank=rank, small=small)
         pr = sample_params(rng, name, shape[-3], shape[-2], feasible_only)
+        if pr is not None and rng.random() < multi:
+            # several (acceleration, centre fraction) pairs: one is chosen per call from the seeded stream
+            prs = [pr] + [sample_params(rng, name, shape[-3], shape[-2], feasible_only) for _ in range(rng.choice([1, 2]))]
+            if all(q is not None for q in prs) and len({q for q in prs}) > 1:
+                pr = ([q[0] for q in prs], [q[1] for q in prs])
         if pr is not None:
             acc, cf = pr
             return {"gen": name, "mode": mode, "shape": shape, "acc": acc, "cf": cf,
